@@ -2,7 +2,8 @@
    threshold configuration; the monitor's samples/state after any history are exactly
    the in-window samples among the last MaxSamples; the handler gate. *)
 From Coq Require Import Floats.
-From KS Require Import lib.Base model.Health.
+From Coq Require Import String.
+From KS Require Import lib.Base model.Health model.Dispatch gen.DispatchTable.
 Open Scope Z_scope.
 
 (* ---------- float <= is transitive (needs the stdlib's specification axiom
@@ -329,3 +330,10 @@ Lemma gate_open e :
   pe_allowed e = true -> pe_etcd e = true -> pe_lease e = LeaseOk -> pe_gate e = Healthy ->
   produce_partition e = PProceed /\ fetch_partition e = PProceed.
 Proof. intros A B C D. unfold produce_partition, fetch_partition. rewrite A, B, C, D. split; reflexivity. Qed.
+
+(* the Produce and Fetch rows of the table regenerated from cmd/broker/main.go carry the
+   guard order the gate model assumes (kept here, not in DispatchProofs, so that C25 does
+   not depend on the other dispatch cases) *)
+Lemma gate_rows_in_source :
+  row_ok dispatch_table "Produce" = true /\ row_ok dispatch_table "Fetch" = true.
+Proof. vm_compute. split; reflexivity. Qed.
